@@ -55,6 +55,18 @@ Theorem C07_step_keeps_tau_kappa_positive :
     (0 < tau + a * dtau)%R /\ (0 < kappa + a * dkappa)%R.
 Proof. exact step_keeps_tau_kappa_positive. Qed.
 
+(** barrier backtracking of the combined step (dual scaling, nonsymmetric cones): the result is
+    the given step times step^k with k <= 50 the number of failed barrier tests, hence positive
+    and not longer than the step it was given *)
+Theorem C07_barrier_backtrack_result :
+  forall (fuel : nat) (ans : list bool) (step a : R),
+    bt_gen Rmult fuel ans step a = (step ^ (bt_count fuel ans) * a)%R /\ (bt_count fuel ans <= fuel)%nat.
+Proof. exact bt_barrier_result. Qed.
+Theorem C07_barrier_backtrack_bounds :
+  forall (fuel : nat) (ans : list bool) (step a : R),
+    (0 < step <= 1)%R -> (0 < a)%R -> (0 < bt_gen Rmult fuel ans step a <= a)%R.
+Proof. exact bt_barrier_bounds. Qed.
+
 (** non-vacuity: budgets 1 and 5 on the same kernel answers — the short run stops at the
     head where the long run shows iteration 1 *)
 Example C07_budget_example :
